@@ -229,13 +229,15 @@ def judge(case, hist, src, w, close_exc, viol):
             break
     if close_exc is not None:
         viol('close_raised', exc=type(close_exc).__name__)
-    if src.closed != 1:
-        viol('source_close_calls', calls=src.closed)
+    # how often close() reaches the source is not part of the statement:
+    # recorded as a probe by the caller, never a violation
 
 
 def placements(names, nchunks):
-    idxs = sorted(set(list(range(min(6, nchunks))) +
-                      [i for i in (nchunks - 2, nchunks - 1) if i >= 0]))
+    if nchunks <= 16:
+        idxs = list(range(nchunks))
+    else:
+        idxs = sorted(set(list(range(6)) + [nchunks - 2, nchunks - 1]))
     for n in names:
         for i in idxs:
             for ph in ('before', 'after', 'post_process'):
@@ -251,7 +253,7 @@ class C06(Check):
     RULE = ('the first runs of a batch are single-fault sweeps: one workload '
             '(content, read plan, source kind, expected_format, '
             'allowed_formats, inspector order) x every placement (inspector '
-            'x chunk index in first 6 / last 2 x phase before / after '
+            'x every chunk index (first 6 / last 2 when there are more than 16 chunks) x phase before / after '
             'capture / in post_process) of one injected exception, each '
             'placement one simulated session; the remaining runs sample 0-3 '
             'inspector faults (4 phases, 8 exception classes) and source '
@@ -270,8 +272,9 @@ class C06(Check):
     }
     ASSUMPTIONS = ['BaseException subclasses are not injected (letting '
                    'KeyboardInterrupt through is correct)',
-                   'single-fault sweep is complete per workload for the '
-                   'listed chunk indices and phases only']
+                   'single-fault sweep is complete per workload over all '
+                   'chunk indices (sweep workloads have <= 14 chunks) and '
+                   'the three phases before / after / post_process only']
     FAULT_KINDS = ('inspector_raises_before', 'inspector_raises_after',
                    'inspector_raises_post_process',
                    'inspector_raises_region_complete',
@@ -403,6 +406,8 @@ class C06(Check):
         hist, src, w, close_exc = run_session(data, case, faults, src_fault)
         judge(case, hist, src, w, close_exc, viol)
         self.bump('probes', 'sessions')
+        if src.closed == 1:
+            self.bump('probes', 'source_closed_exactly_once')
         self.bump('sim', 'bytes', src.pos)
         self.bump('sim', 'chunks', len(src.delivered))
         for (n, i, ph) in hist.fired:
